@@ -16,6 +16,11 @@ CHECKS = {
    note="Trusted: Coq kernel; hand-written model Model/Syntax.v of analyzer/syntax.rs and linter.rs (tie = correspondence); extraction, driver, harness. The pinned commit violated the property (D1, refuted in Coq by a witness) and was repaired by a fix: commit; the model follows the repaired code. Print Assumptions: closed.",
    technique="Coq proof: flag-automaton model = structural specification by induction with a flag invariant; differential correspondence",
    design="5/C06"),
+ "C05": dict(
+   text="Machine-checked proof (Coq) that the variable scoper (scope stack with resolution ids, per-label intersection of in-scope variables at gotos, pruning at labels, poisoning on use) emits exactly the diagnostics of a forward specification (use resolves to the outermost/earliest visible binding, E402 if none; duplicate iff name visible, E422/E424; a binding is skipped at a label of its own block iff a goto to that label preceded its declaration, E482 on use), for all programs whose labels have unique ids; correspondence of model, specification and an independent index-based oracle against the real front end (exhaustive small scope + random + mostly-valid generator).",
+   note="Trusted: Coq kernel; hand-written model Model/VarScope.v; the hypothesis labels_once is monitored on every real input; reachability is the conservative 'may be skipped' reading of docs/errors.md; the index-based oracle (python) is a third opinion, not part of the proof. Print Assumptions: closed.",
+   technique="Coq proof: simulation between the stateful analyzer model and a forward specification (invariant over scope stack / unresolved-label sets); differential correspondence + independent oracle",
+   design="5/C05"),
 }
 
 NOT_YET = {
